@@ -859,7 +859,8 @@ def wellFormedBytes (l : Bytes) : Bool := l.all (· < 256)
 --@driver msg. Msg.handle
 /-- line protocol:
 `msg.ctor kind a b c` → `sig=…`; `msg.ctorblk kind a b` → `h=…`; `msg.cls HEX` → `sig=…`;
-`msg.clsblk HEX` → `h=…` (hash over the 256 one-byte extensions); `msg.isrow t` → `row=…`
+`msg.clsblk HEX` → `h=…` (hash over the 256 one-byte extensions); `msg.clsblk2 HH` → 256 such hashes,
+one per second byte; `msg.isrow t` → `row=…`
 (`Type(t).Is(c)` for c = -128..127); `msg.oneof v HEX c1,c2,…` → `r=…`; `msg.alloc HEX` → `a=…`. -/
 def handle (op : String) (args : List String) : String :=
   match op, args with
@@ -893,6 +894,15 @@ def handle (op : String) (args : List String) : String :=
          s!"h={r.toNat}"
        else "bad-op"
      | none => "bad-op")
+  | "msg.clsblk2", [h] =>
+    (match unhex h with
+     | some [a] =>
+       if a < 256 then
+         let hs := (List.range 256).map (fun b =>
+           (List.range 256).foldl (fun acc x => fnvInts acc (sigAll [a, b, x])) fnvInit)
+         "h=" ++ ",".intercalate (hs.map (fun h => toString h.toNat))
+       else "bad-op"
+     | _ => "bad-op")
   | "msg.isrow", [t] =>
     (match intOfString t with
      | some t =>
